@@ -294,8 +294,19 @@ func rulesC17(c *Ctx) {
 				okSeq++
 			case "above":
 				// the id comes from the decoded cursor
-				if name, on := pl.SelectorOn(ce.Args[0], pl.VarFromCall(c.FnObj(pM, "", "decodeCursor"), 0)); on && name == "LastUID" {
+				dcVar := pl.VarFromCall(c.FnObj(pM, "", "decodeCursor"), 0)
+				if name, on := pl.SelectorOn(ce.Args[0], dcVar); on && name == "LastUID" {
 					okSeq++
+				} else if dcVar != nil && pl.ObjOf(ce.Args[0]) == dcVar {
+					// decodeCursor hands out the id itself: its successful return is <token>.LastUID
+					dc := c.Fn(pM, "", "decodeCursor")
+					for _, r := range dc.Returns() {
+						if len(r.Results) == 2 && isNilIdent(r.Results[1]) {
+							if s, isS := ast.Unparen(r.Results[0]).(*ast.SelectorExpr); isS && s.Sel.Name == "LastUID" {
+								okSeq++
+							}
+						}
+					}
 				}
 			}
 		}
